@@ -188,8 +188,10 @@ pub fn run(ctx: &Ctx) -> Report {
     if ctx.want("random") {
         let mut r = ctx.rng("c03-rand");
         for i in 0..ctx.count(15_000, 60_000) {
-            let p = match r.below(4) { 0 => r.range(1, 64) as usize, 1 => 16384, 2 => r.range(1000, 40000) as usize, _ => r.range(2, 600) as usize };
-            let npieces = r.range(1, 9) as usize;
+            // one case in 60 has pieces larger than 256 KiB (the client's own read size)
+            let big = i % 60 == 7;
+            let p = if big { *r.pick(&[262145usize, 300_000, 524288, 524289, 700_001]) } else { match r.below(4) { 0 => r.range(1, 64) as usize, 1 => 16384, 2 => r.range(1000, 40000) as usize, _ => r.range(2, 600) as usize } };
+            let npieces = if big { r.range(1, 3) as usize } else { r.range(1, 9) as usize };
             let total = (npieces - 1) * p + r.range(1, p as u64) as usize;
             let single = r.chance(1, 4);
             let k = if single { 1 } else { r.range(1, 8) as usize };
@@ -279,7 +281,8 @@ pub fn run_c04(ctx: &Ctx) -> Report {
         let multi = r.chance(2, 3);
         let hostile_name = r.chance(1, 2);
         let name = if hostile_name { gen_path(&mut r, &abs_target) } else { "dl".to_string() };
-        let k = if multi { r.range(2, 3) as usize } else { 1 };
+        // (a `files` list may also have exactly one entry)
+        let k = if multi { r.range(1, 3) as usize } else { 1 };
         let p = 16usize;
         let lens: Vec<usize> = (0..k).map(|_| r.range(0, 40) as usize).collect();
         let total: usize = lens.iter().sum();
